@@ -488,6 +488,10 @@ func getPartitionNodesUtilJSON(partition *scheduler.PartitionContext) *dao.Parti
 			if absValue, ok := absUsedCapacity.Resources[resourceType]; ok {
 				v := float64(absValue)
 				idx = int(math.Dim(math.Ceil(v/10), 1))
+				// an over committed node reports more than 100%: it belongs in the last bucket
+				if idx > 9 {
+					idx = 9
+				}
 			}
 
 			// create resource bucket if not exist
